@@ -958,7 +958,13 @@ where
             counter
         ));
 
-        let config = MmapVecConfig::default();
+        // The vector must really have room for `capacity` elements: the zero fill below covers
+        // `capacity * size_of::<T>()` bytes of the mapping.
+        let default_config = MmapVecConfig::default();
+        let config = MmapVecConfig {
+            initial_capacity: capacity.max(default_config.initial_capacity),
+            ..default_config
+        };
         let mut vec = Self::create(&file_path, config)?;
         vec.is_temp_file = true; // Mark as temporary for cleanup
 
